@@ -1,6 +1,6 @@
 SPECIFICATION Spec
 CONSTANTS
-  Fams = {"mixed4"}
+  Fams = {"stacked"}
   MaxRoutes = 3
   PerClass = 1
   DEV_RemoveNoRebuild = FALSE
@@ -8,9 +8,12 @@ CONSTANTS
   DEV_CopyMisMaps = FALSE
   DEV_PickleNoRebuild = FALSE
   DEV_AddRebuildsFirst = FALSE
+  DEV_DeferredRemoveKeepsPolygon = FALSE
   DEV_DiscHalfRadius = FALSE
 INVARIANT TypeOK
 INVARIANT IndexMirrors
+INVARIANT BufMirrors
+INVARIANT DirtyOnlyPending
 INVARIANT QueriesExact
 INVARIANT LawsPoint
 INVARIANT LawsRect
